@@ -30,6 +30,16 @@ func f1()     {}
 func f2()     {}
 func f3() int { return 1 }
 
+var g18sink int
+
+// g18: instantiations of one generic function are different functions of one Go type (and of one printed name)
+//
+//go:noinline
+func g18[T any]() {
+	var t [2]T
+	g18sink += len(t)
+}
+
 type domain struct {
 	name string
 	typ  reflect.Type
@@ -188,7 +198,7 @@ func domains() []domain {
 	add("ring struct", Ring{}, func(r *vmon.Rng) interface{} { return pick(r, *ringA, *ringB, *ring2, *ringC, Ring{}, Ring{V: 1}) })
 	add("tree with parent pointers", (*Tree)(nil), func(r *vmon.Rng) interface{} { return pick(r, treeA, treeB, treeC, treeA.Kids[0], treeB.Kids[0]) })
 	ds = append(ds, domain{name: "func", typ: reflect.TypeOf(f1), isFunc: true, gen: func(r *vmon.Rng) interface{} {
-		return pick(r, f1, f2, f1, (func())(nil))
+		return pick(r, f1, f2, f1, (func())(nil), g18[int], g18[string], g18[int], g18[*S])
 	}})
 	return ds
 }
